@@ -167,7 +167,7 @@ func (c *Ctx) rootDerived(v ssa.Value, depth int) (string, bool) {
 			}
 		}
 	case *ssa.Call:
-		if _, ok := isCallTo(x, "path/filepath.Clean"); ok {
+		if _, ok := isCallTo(x, "path/filepath.Clean", "strings.TrimSuffix", "strings.TrimRight"); ok {
 			return c.rootDerived(x.Call.Args[0], depth+1)
 		}
 	}
